@@ -219,7 +219,7 @@ class C02(Check):
                 st = ST.get(int(link.status))
                 coef = None
                 if kind == "headPump":
-                    coef = self._pump_coef(wntr, link, spec["curves"][l["curve"]], failures, {"spec": spec})
+                    coef = self._pump_coef(wntr, link, spec["curves"][l["curve"]], failures, {"spec": spec.get("_origin", spec)})
                 for _ in range(3):
                     f = rng.choice(special) if rng.random() < 0.45 else rng.uniform(-0.25, 0.25)
                     m.flow[l["name"]].value = f
@@ -461,7 +461,7 @@ class C02(Check):
         coefs, refco = {}, {}
         for l in spec["links"]:
             if C.link_kind(l) == "headPump":
-                coefs[l["name"]] = self._pump_coef(wntr, wn.get_link(l["name"]), spec["curves"][l["curve"]], failures, {"spec": spec})
+                coefs[l["name"]] = self._pump_coef(wntr, wn.get_link(l["name"]), spec["curves"][l["curve"]], failures, {"spec": spec.get("_origin", spec)})
                 refco[l["name"]] = self._refcoef[l["name"]]
         ctx.count("sim_ok")
         ctx.count("steps", len(tb.times))
@@ -475,7 +475,7 @@ class C02(Check):
                     ctx.count("skip:isolated_link")
                     continue
                 sti = int(tb.status[k, c])
-                rp = {"spec": spec, "link": name, "t": t}
+                rp = {"spec": spec.get("_origin", spec), "link": name, "t": t}
                 if sti not in ST:
                     failures.append(Failure("link-status-value-%s" % kind, "link %s t=%d reports status %r" % (name, t, tb.status[k, c]), rp))
                     continue
@@ -537,8 +537,8 @@ class C02(Check):
         failures, broken = [], []
         batch = Batch()
         for spec in specs:
+          for spec, cap in C.run_all(wntr, spec):
             C.count_features(ctx, spec)
-            cap = C.run_sim_capture(wntr, spec)
             self._judge(ctx, wntr, spec, cap, batch, failures, broken)
             if len(ctx.samples) < 4 and cap["res"] is not None:
                 ctx.sample({"nodes": len(spec["nodes"]), "links": [(l["name"], C.link_kind(l), l["start"], l["end"]) for l in spec["links"]][:8],
@@ -563,7 +563,7 @@ class C02(Check):
         broken += self._tracker(ctx, wntr)
         broken += self._refusals(ctx, wntr)
         corpus = [c["spec"] for _, c in vlib.corpus_items(self.pid) if "spec" in c]
-        specs = corpus + C.postsolve_setting_specs(ctx, wntr, 1 if ctx.quick else 6) + C.gen_specs(ctx, 30 if ctx.quick else 400, 22 if ctx.quick else 132)
+        specs = corpus + C.edit_between_runs_specs(ctx, 8 if ctx.quick else 48) + C.postsolve_setting_specs(ctx, wntr, 1 if ctx.quick else 6) + C.gen_specs(ctx, 30 if ctx.quick else 400, 22 if ctx.quick else 132)
         f, b = self._static_rows(ctx, wntr, specs[: (26 if ctx.quick else 250)])
         failures += f
         broken += b
@@ -580,7 +580,7 @@ class C02(Check):
         self.max_ratio, self.fit3 = {}, 0.0
         self._refcache, self._refcoef = {}, {}
         corpus = [c["spec"] for _, c in vlib.corpus_items(self.pid) if "spec" in c]
-        f, b = self._run_specs(ctx, wntr, corpus + C.postsolve_setting_specs(ctx, wntr, 3) + C.gen_specs(ctx, 60, 44))
+        f, b = self._run_specs(ctx, wntr, corpus + C.edit_between_runs_specs(ctx, 16) + C.postsolve_setting_specs(ctx, wntr, 3) + C.gen_specs(ctx, 60, 44))
         return f
 
     def replay(self, ctx, path):
